@@ -4,17 +4,18 @@
 set -u
 cd /verif
 only="${1:-}"
+with="${2:-}"   # optional: run this check instead of the property's own
 for d in seeded/*/; do
-  id=$(basename $d); prop=${id%%-*}
+  id=$(basename $d); prop=${id%%-*}; [ -n "$with" ] && prop=$with
   [ -n "$only" ] && [[ "$id" != $only ]] && continue
   [ -f $d/patch.diff ] || continue
   if ! git -C /repo diff --quiet; then echo "repo dirty, abort"; exit 2; fi
-  if ! git -C /repo apply --check $PWD/$d/patch.diff 2>/dev/null; then echo "$id: patch does not apply on current /repo HEAD" | tee $d/detection.txt; continue; fi
+  if ! git -C /repo apply --check $PWD/$d/patch.diff 2>/dev/null; then echo "$id: patch does not apply on current /repo HEAD" | tee $d/detection.$prop.txt; continue; fi
   git -C /repo apply $PWD/$d/patch.diff
   out=$(VERIF_WORKERS=14 ./check $prop ${TIER:-quick} 2>&1 | grep -E "^(VIOLATION|HARNESS|C[0-9]+:|  class|  detail)" | cut -c1-400 | head -9)
   git -C /repo checkout -- .
   verdict=MISSED; echo "$out" | grep -q "^VIOLATION" && verdict=CAUGHT; echo "$out" | grep -q "^HARNESS" && verdict="$verdict+HARNESS"
-  { echo "$id: $verdict by ./check $prop ${TIER:-quick} (seed default) on $(git -C /repo rev-parse --short HEAD)+patch"; echo "$out"; } | tee $d/detection.txt | head -4
+  { echo "$id: $verdict by ./check $prop ${TIER:-quick} (seed default) on $(git -C /repo rev-parse --short HEAD)+patch"; echo "$out"; } | tee $d/detection.$prop.txt | head -4
 done
 ./check build >/dev/null
 echo MATRIX-DONE
